@@ -31,14 +31,16 @@ if [ "$tier" = quick ]; then BUILDS=("${BUILDS_QUICK[@]}"); else BUILDS=("${BUIL
 cfgargs=()
 if [ "$REPO" != "/repo" ]; then cfgargs=(--config "paths=[\"$REPO\"]"); fi
 pieces="$VERIF/scratch/c14-$$"; rm -rf "$pieces"; mkdir -p "$pieces"
+KTARGET="${VERIF_TARGET:-$VERIF/sim/target}-knobs"
+trap 'rm -f "$VERIF"/bin/hss-sim-*-$$' EXIT
 rc=0
 for b in "${BUILDS[@]}"; do
   IFS='|' read -r name L H W <<< "$b"
   ( cd "$VERIF/sim" && HBS_LMS_MAX_ALLOWED_HSS_LEVELS="$L" HBS_LMS_TREE_HEIGHTS="$H" HBS_LMS_WINTERNITZ_PARAMETERS="$W" \
-      cargo build --release --offline --target-dir "$VERIF/sim/target-knobs" "${cfgargs[@]}" 2> "$pieces/build-$name.log" ) \
+      cargo build --release --offline --target-dir "$KTARGET" "${cfgargs[@]}" 2> "$pieces/build-$name.log" ) \
     || { echo "HARNESS ERROR: build under HBS_LMS_MAX_ALLOWED_HSS_LEVELS=$L HBS_LMS_TREE_HEIGHTS=\"$H\" HBS_LMS_WINTERNITZ_PARAMETERS=\"$W\" failed"; tail -30 "$pieces/build-$name.log"; rm -rf "$pieces"; exit 2; }
-  cp "$VERIF/sim/target-knobs/release/hss-sim" "$VERIF/bin/hss-sim-$name"
-  VERIF_EVIDENCE="$pieces/$name.json" VERIF_SEED="$SEED" "$VERIF/bin/hss-sim-$name" check C14 "$tier" > "$pieces/$name.out" 2>&1
+  cp "$KTARGET/release/hss-sim" "$VERIF/bin/hss-sim-$name-$$"
+  VERIF_EVIDENCE="$pieces/$name.json" VERIF_SEED="$SEED" "$VERIF/bin/hss-sim-$name-$$" check C14 "$tier" > "$pieces/$name.out" 2>&1
   r=$?
   sed -e "s/^VIOLATION property=C14 replay=\(.*\)$/VIOLATION property=C14 replay=\1/" "$pieces/$name.out" | sed -e "s/^/[$name] /" | grep -v "^\[$name\] VIOLATION" 
   grep "^VIOLATION" "$pieces/$name.out"
